@@ -274,6 +274,7 @@ pub fn meta(args: &Args) -> Value {
         "hang_is_violation": true,
         "crash_is_violation": true,
         "budget": args.cases(64, 3000),
+        "sanitizer": {"kind": "tsan", "budget": 160, "slowdown": 10},
     })
 }
 
